@@ -206,7 +206,39 @@ impl TableLookup {
     { unimplemented!() }
     #[verifier::external_body]
     pub fn completed(&self) -> bool { unimplemented!() }
+    // ASSUMED contract (lookup.rs:66-121): creating a search is the LookupStart event, followed by its first round of queries
+    #[verifier::external_body]
+    pub fn new(target_id: InfoHash, will_announce: bool, tx: mpsc::UnboundedSender<SocketAddr>, id_generator: MIDGenerator,
+               table: Arc<Mutex<RoutingTable>>, socket: &Socket, timer: &mut Timer<ScheduledTaskCheck>, Tracked(tr): Tracked<&mut Trace>) -> (r: TableLookup)
+        requires old(timer).wf()
+        ensures final(tr).ev.len() > old(tr).ev.len(), final(tr).ev[old(tr).ev.len() as int] == Ev::LookupStart(target_id, will_announce),
+            only_requests_and_yields(old(tr).ev.push(Ev::LookupStart(target_id, will_announce)), final(tr).ev),
+            no_new_refresh(*old(timer), *final(timer))
+    { unimplemented!() }
 }
+// tokio::sync::mpsc stand-in (the search result stream)
+pub mod mpsc {
+    pub struct UnboundedSender<T> { pub t: core::marker::PhantomData<T> }
+}
+//@begin type src/action/mod.rs - struct StartLookup
+pub struct StartLookup {
+    pub info_hash: InfoHash,
+    pub announce: bool,
+    pub tx: mpsc::UnboundedSender<SocketAddr>,
+}
+//@end
+// action id generator: stand-in (proved in unit `txid`: successive activities get distinct 5-byte prefixes)
+pub struct AIDGenerator { pub g: u64 }
+impl AIDGenerator {
+    #[verifier::external_body]
+    pub fn generate(&mut self) -> MIDGenerator { unimplemented!() }
+}
+// TRUSTED: std::mem::take leaves Default::default() behind and returns the old value; Vec's default is empty
+pub uninterp spec fn is_default<T>(t: T) -> bool;
+pub assume_specification<T> [std::mem::take] (x: &mut T) -> (r: T) where T: std::default::Default
+    ensures r == *old(x), is_default(*final(x));
+pub broadcast axiom fn vec_default_is_empty<T>(v: Vec<T>) ensures #[trigger] is_default(v) ==> v@.len() == 0;
+
 
 // TRUSTED: derived Hash/Eq on ActionID (a u64) agree
 pub broadcast axiom fn actionid_key_model() ensures #[trigger] obeys_key_model::<ActionID>();
